@@ -30,6 +30,7 @@ type Net struct {
 	DialTimes       []time.Duration
 	InlineHandshake bool // only the connect handshake of new links is zero-latency
 	HandshakeCut    int  // the next n links die when the broker receives their ConnectRequest
+	Window          int  // >0: back-pressure: a Write blocks while that many client frames wait for the broker
 	inlineMu        sync.Mutex
 }
 
@@ -60,8 +61,10 @@ type Link struct {
 	deadReadErr  error
 	deadWriteErr error
 	clientClosed bool
-	blackhole    bool // peer silently gone: writes succeed, nothing is delivered
-	dieOnConnect bool // handshake-cut fault
+	blackhole    bool          // peer silently gone: writes succeed, nothing is delivered
+	stalled      bool          // slow link: Write blocks until the scheduler resumes it
+	room         chan struct{} // closed when a blocked Write may try again
+	dieOnConnect bool          // handshake-cut fault
 
 	// keepalive latency model (C15): pings are answered by a bubble timer after pongDelay,
 	// exactly, whatever the scheduler's step size; no pong is sent at or after pongSilentAt
@@ -157,6 +160,29 @@ func (l *Link) Write(b []byte) error {
 		s.mu.Unlock()
 		return l.deadWriteErr
 	}
+	// back-pressure / slow link: the write is parked (durably) until the scheduler makes room
+	for l.stalled || (l.net.Window > 0 && len(l.c2b) >= l.net.Window && !l.blackhole) {
+		if l.room == nil {
+			l.room = make(chan struct{})
+		}
+		ch := l.room
+		s.stats["env.write-blocked-by-backpressure"]++
+		s.mu.Unlock()
+		select {
+		case <-ch:
+		case <-l.dead:
+		case <-l.closed:
+		}
+		s.mu.Lock()
+		if l.clientClosed {
+			s.mu.Unlock()
+			return transport.ErrAlreadyClosed
+		}
+		if l.isDead {
+			s.mu.Unlock()
+			return l.deadWriteErr
+		}
+	}
 	l.txBytes += uint64(len(b))
 	l.txFrames++
 	if l.blackhole {
@@ -209,6 +235,28 @@ func (l *Link) Write(b []byte) error {
 		l.net.inlineMu.Unlock()
 	}
 	return nil
+}
+
+// wakeWriters lets parked Writes re-check (s.mu held).
+func (l *Link) wakeWriters() {
+	if l.room != nil {
+		close(l.room)
+		l.room = nil
+	}
+}
+
+// StallWrites / ResumeWrites model a link that does not take data for a while.
+func (l *Link) StallWrites() {
+	l.net.s.mu.Lock()
+	l.stalled = true
+	l.net.s.mu.Unlock()
+}
+
+func (l *Link) ResumeWrites() {
+	l.net.s.mu.Lock()
+	l.stalled = false
+	l.wakeWriters()
+	l.net.s.mu.Unlock()
 }
 
 func (l *Link) Close() error { return l.CloseWithStatus(transport.CloseStatusNormal) }
@@ -281,6 +329,7 @@ func (l *Link) IngestOne() bool {
 	}
 	f := l.c2b[0]
 	l.c2b = l.c2b[1:]
+	l.wakeWriters()
 	s.mu.Unlock()
 	s.Broker.curSentAt = f.at
 	m, err := l.decode(f.b)
@@ -291,6 +340,13 @@ func (l *Link) IngestOne() bool {
 		return true
 	}
 	if err != nil {
+		if s.Prop == "C12" {
+			// the frame was produced by the library's encoder and is read by the library's decoder (the
+			// harness only carries the bytes and never alters this direction): a message the library
+			// produced does not decode back
+			s.Violate("C12.client-frame-not-decodable", "", "a frame written by the client (%d bytes) cannot be decoded by the library's own decoder: %v", len(f.b), err)
+			return true
+		}
 		s.HarnessError("broker cannot decode client frame on link %d: %v", l.ID, err)
 		return true
 	}
